@@ -147,9 +147,10 @@ func c10LongAndLarge(r *Run) {
 		k             int
 		two           bool
 	}
-	ks := []int{1, 1000, 4095, 4096, 4097, 5000}
+	// around every power of two a bounded table is likely to be sized by, not only 4096
+	ks := []int{1, 1000, 4095, 4096, 4097, 5000, 63, 64, 65, 255, 256, 257, 1023, 1024, 1025, 2048, 2049, 8191, 8192, 8193}
 	if !r.Quick {
-		ks = append(ks, 8191, 8192, 8193, 20000, 65000)
+		ks = append(ks, 16384, 16385, 20000, 32768, 32769, 65000)
 	}
 	var longs []long
 	for i, k := range ks {
